@@ -101,4 +101,97 @@ theorem C09_full_fails' : ¬ C09_full := by
   revert this
   decide
 
+
+/-- Wrap-around: after any sequence of `Add`s to a new window of capacity `cap > 0`, `All`
+    is the last `cap` metrics, newest first (so `Latest` is the last one added). -/
+theorem window_all_spec (cap : Nat) (hc : 0 < cap) (ms : List Metric) :
+    (ms.foldl Window.add (Window.new cap)).all = ms.reverse.take cap := by
+  obtain ⟨xs, hr, h⟩ := fold_add_rep cap hc ms (Window.new cap) [] [] (ringRep_new cap) (by simp)
+  rw [ringRep_all hr, h]; simp
+
+/-- An arrival history (any arrivals, removals, peerset changes, queries; no checks yet)
+    leaves (name, peer) with an expired latest metric that a check finds failed (fewer than
+    6 samples, or the accrual oracle says failed). Then any number of `CheckPeers` calls that
+    include the peer, with no renewal in between, raise exactly one alert for it; after the
+    second call its stale metric is forgotten (and the remaining calls are silent). -/
+theorem alert_once (P : Params) (hmax : P.maxA = 1) (ps0 : Peerset) (h : List Op)
+    (hnc : ∀ op ∈ h, isCheck op = false) (k : Key) (w0 : Window) (m : Metric)
+    (hw : (stateAfter P 0 (State.init ps0) h).win k = some w0) (hl : w0.latest = some m)
+    (hx : m.expired = true) (hf : w0.count < accrualMin ∨ ∀ i, P.orc i k.1 k.2 = true)
+    (ls : List (List Nat)) (hcov : ∀ l ∈ ls, k.2 ∈ l) :
+    alertsFor k (runFrom P h.length (stateAfter P 0 (State.init ps0) h) (ls.map .checkPeers)) =
+        (if ls = [] then 0 else 1) ∧
+    (2 ≤ ls.length →
+      latestOf (stateAfter P h.length (stateAfter P 0 (State.init ps0) h) (ls.map .checkPeers)) k = none) := by
+  obtain ⟨hc0, hst⟩ := noCheck_state P h 0 (State.init ps0) hnc (by simp [State.init]) (by simp [State.init])
+  have hG : Gd k (stateAfter P 0 (State.init ps0) h) :=
+    ⟨fun k' => by rw [hc0 k']; omega, hst k (by rw [hw]; simp)⟩
+  obtain ⟨h1, h2⟩ := once_from P hmax k w0 m hl hx hf ls hcov h.length _ hG ⟨hw, hc0 k⟩
+  refine ⟨h1, fun hlen => ?_⟩
+  have := (h2 hlen).1
+  simp [latestOf, this]
+
+/-! ### the publish loops (third sentence) -/
+
+theorem remaining_ttl_nonneg (ttl delay : Int) (a : Iter) (hd : delay ≤ ttl) (ha : a.wf delay) :
+    0 ≤ a.expire ttl - a.reset := by
+  obtain ⟨h1, h2, h3, h4⟩ := ha
+  unfold Iter.expire; omega
+
+theorem republish_before_expiry (ttl delay : Int) (a b : Iter) (_hd : 0 ≤ delay) (h4 : 4 * delay < ttl)
+    (ha : a.wf delay) (hb : b.wf delay) (hf : b.follows ttl a) : b.pub < a.expire ttl := by
+  obtain ⟨a1, a2, a3, a4⟩ := ha
+  obtain ⟨b1, b2, b3, b4⟩ := hb
+  unfold Iter.follows Iter.nextFire at hf
+  unfold Iter.expire at hf ⊢
+  by_cases he : a.err = true
+  · simp only [he, if_true] at hf; omega
+  · simp only [he, Bool.false_eq_true, if_false] at hf; omega
+
+theorem republish_after_one_error (ttl delay : Int) (a b c : Iter) (_hd : 0 ≤ delay) (h10 : 10 * delay < ttl)
+    (ha : a.wf delay) (hb : b.wf delay) (hc : c.wf delay) (hab : b.follows ttl a) (hbc : c.follows ttl b)
+    (hae : a.err = false) (hbe : b.err = true) : c.pub < a.expire ttl := by
+  obtain ⟨a1, a2, a3, a4⟩ := ha
+  obtain ⟨b1, b2, b3, b4⟩ := hb
+  obtain ⟨c1, c2, c3, c4⟩ := hc
+  unfold Iter.follows Iter.nextFire at hab hbc
+  unfold Iter.expire at hab hbc ⊢
+  simp only [hae, hbe, if_true, Bool.false_eq_true, if_false] at hab hbc
+  omega
+
+theorem two_errors_too_late : ∃ (ttl : Int) (a b c d : Iter), 0 < ttl ∧ a.wf 0 ∧ b.wf 0 ∧ c.wf 0 ∧ d.wf 0 ∧
+    b.follows ttl a ∧ c.follows ttl b ∧ d.follows ttl c ∧ a.err = false ∧ b.err = true ∧ c.err = true ∧
+    ¬ d.pub < a.expire ttl :=
+  ⟨4, ⟨0, 0, 0, 0, false⟩, ⟨2, 2, 2, 2, true⟩, ⟨3, 3, 3, 3, true⟩, ⟨4, 4, 4, 4, false⟩, by
+    simp [Iter.wf, Iter.follows, Iter.nextFire, Iter.expire]⟩
+
+theorem ping_republish (interval delay tick s p s' p' : Int) (hd : delay < interval)
+    (h1 : tick ≤ s) (_h2 : s ≤ p) (_h3 : p ≤ tick + delay)
+    (_h1' : tick + interval ≤ s') (_h2' : s' ≤ p') (h3' : p' ≤ tick + interval + delay) :
+    p' < s + 2 * interval := by omega
+
+/-! ### Non-vacuity: concrete histories meet the hypotheses and exercise every arm -/
+
+/-- arrivals for two peers (one wrapping a 2-slot window), a query, alert, forget, silence -/
+private def ex1 : Input :=
+  { cap := 2, maxA := 1, ps0 := .known [0, 1],
+    ops := [.add ⟨0, 0, 0, true, false⟩, .add ⟨1, 0, 0, true, false⟩, .add ⟨2, 0, 0, true, true⟩,
+            .add ⟨3, 0, 1, true, false⟩, .add ⟨4, 0, 2, true, false⟩, .query 0, .tick, .checkPeers [0, 0, 1], .tick,
+            .setPeers .unknown, .query 0] }
+example : wf ex1 = true ∧ calm ex1 (fun _ _ _ => false) = true ∧
+    run ex1 (fun _ _ _ => false) =
+      [.silent, .silent, .silent, .silent, .silent, .metrics [(1, 3)] true, .check [(0, 0, some 2)] [],
+       .check [] [(0, 0)], .check [] [], .silent, .metrics [(1, 3), (2, 4)] true] ∧
+    holds ex1 (fun _ _ _ => false) (run ex1 (fun _ _ _ => false)) = true := by decide
+/-- the property checker rejects a repeated alert and a stale metric in the answer -/
+example : holds ex1 (fun _ _ _ => false)
+      [.silent, .silent, .silent, .silent, .silent, .metrics [(1, 3)] true, .check [(0, 0, some 2)] [],
+       .check [(0, 0, some 2)] [], .check [] [], .silent, .metrics [(1, 3), (2, 4)] true] = false ∧
+    holds ex1 (fun _ _ _ => false)
+      [.silent, .silent, .silent, .silent, .silent, .metrics [(0, 2), (1, 3)] true, .check [(0, 0, some 2)] [],
+       .check [] [(0, 0)], .check [] [], .silent, .metrics [(1, 3), (2, 4)] true] = false := by decide
+/-- the hypothesis of `C09_partial` is not met by the counterexamples -/
+example : calm witnessCounterKept (fun _ _ _ => true) = false ∧
+    calm witnessCheckAllInvalid (fun _ _ _ => true) = false := by decide
+
 end CV.C09
